@@ -246,3 +246,69 @@ func Plain(msgID int64, data []byte) []byte {
 	b = U32(b, uint32(len(data)))
 	return append(b, data...)
 }
+
+// MaxBody is the largest message body the statement of C22 talks about (1 MiB).
+const MaxBody = 1 << 20
+
+// ParseContainer is the reference msg_container parser. oversize reports that some message
+// declares a body longer than MaxBody (the parse then stops there with st == OK and the messages
+// before it): what a decoder does with such input is outside the specification used here.
+func ParseContainer(in []byte) (msgs []Msg, consumed int, oversize bool, st Status) {
+	if len(in) < 4 {
+		return nil, 0, false, Short
+	}
+	if binary.LittleEndian.Uint32(in) != IDContainer {
+		return nil, 0, false, Malformed
+	}
+	if len(in) < 8 {
+		return nil, 0, false, Short
+	}
+	n := int32(binary.LittleEndian.Uint32(in[4:]))
+	if n < 0 {
+		return nil, 0, false, Malformed // the count of a vector is a natural number
+	}
+	off := 8
+	for i := int32(0); i < n; i++ {
+		if len(in)-off < 16 {
+			return nil, 0, false, Short
+		}
+		id := int64(binary.LittleEndian.Uint64(in[off:]))
+		seq := int32(binary.LittleEndian.Uint32(in[off+8:]))
+		l := int32(binary.LittleEndian.Uint32(in[off+12:]))
+		off += 16
+		if l < 0 {
+			return nil, 0, false, Malformed
+		}
+		if l > MaxBody {
+			return msgs, off, true, OK
+		}
+		if len(in)-off < int(l) {
+			return nil, 0, false, Short
+		}
+		msgs = append(msgs, Msg{ID: id, SeqNo: seq, Body: in[off : off+int(l)]})
+		off += int(l)
+	}
+	return msgs, off, false, OK
+}
+
+// ParsePlain is the reference parser of an unencrypted message.
+func ParsePlain(in []byte) (msgID int64, data []byte, st Status) {
+	if len(in) < 8 {
+		return 0, nil, Short
+	}
+	if binary.LittleEndian.Uint64(in) != 0 {
+		return 0, nil, Malformed // auth_key_id of a plaintext message is 0
+	}
+	if len(in) < 20 {
+		return 0, nil, Short
+	}
+	msgID = int64(binary.LittleEndian.Uint64(in[8:]))
+	l := int32(binary.LittleEndian.Uint32(in[16:]))
+	if l < 0 {
+		return 0, nil, Malformed
+	}
+	if len(in)-20 < int(l) {
+		return 0, nil, Short
+	}
+	return msgID, in[20 : 20+int(l)], OK
+}
